@@ -469,11 +469,17 @@ theorem accepted_evEnd (g : Cfg) (s : S) : (evEnd g s).accepted = s.accepted := 
     · exact h1
 
 /-- one step appends exactly the range its return value reports (if the connection is open afterwards) -/
-theorem step_reported (g : Cfg) (s : S) (op : Op) (hd : InvD g s) (ho : (step g s op).closed = false)
+def Op.isCall : Op → Bool
+  | .write _ _ => true
+  | .writev _ _ => true
+  | .sendfile _ _ _ => true
+  | _ => false
+
+theorem step_reported (g : Cfg) (s : S) (op : Op) (hd : InvD g s) (ho : op.isCall = true → (step g s op).closed = false)
     (hwf : OpsWF [op]) : (step g s op).accepted = s.accepted ++ reportedOf g s op := by
   cases op with
   | write b ks =>
-    have ho' : (write g s b (directAns ks)).1.closed = false := ho
+    have ho' : (write g s b (directAns ks)).1.closed = false := ho rfl
     show (write g s b (directAns ks)).1.accepted = s.accepted ++
       (if (write g s b (directAns ks)).2.err = .none then b.take (write g s b (directAns ks)).2.n.toNat else [])
     by_cases he : (write g s b (directAns ks)).2.err = .none
@@ -482,7 +488,7 @@ theorem step_reported (g : Cfg) (s : S) (op : Op) (hd : InvD g s) (ho : (step g 
     · have := (c01_error_write_inv g s b _ hd he).2.2
       rw [this] at ho'; exact absurd ho' (by simp)
   | writev bs ks =>
-    have ho' : (writev g s bs (directAns ks)).1.closed = false := ho
+    have ho' : (writev g s bs (directAns ks)).1.closed = false := ho rfl
     show (writev g s bs (directAns ks)).1.accepted = s.accepted ++
       (if (writev g s bs (directAns ks)).2.err = .none then bs.flatten.take (writev g s bs (directAns ks)).2.n.toNat else [])
     by_cases he : (writev g s bs (directAns ks)).2.err = .none
@@ -494,7 +500,7 @@ theorem step_reported (g : Cfg) (s : S) (op : Op) (hd : InvD g s) (ho : (step g 
     · have := (c01_error_writev_inv g s bs _ hd he).2.2
       rw [this] at ho'; exact absurd ho' (by simp)
   | sendfile off len ks =>
-    have ho' : (sendfile g s off len ks).1.closed = false := ho
+    have ho' : (sendfile g s off len ks).1.closed = false := ho rfl
     have hk : KWF ks := hwf.1
     show (sendfile g s off len ks).1.accepted = s.accepted ++
       (if (sendfile g s off len ks).2.err = .none then fileRange g off (sendfile g s off len ks).2.n.toNat else [])
@@ -603,10 +609,127 @@ theorem run_reported (g : Cfg) (ops : List Op) : ∀ s : S, InvD g s → InvT s 
       · have := closed_run g ops _ h
         have ho' : (run g (step g s op) ops).closed = false := ho
         rw [this] at ho'; exact absurd ho' (by simp)
-    have h1 := step_reported g s op hd hstep hw1
+    have h1 := step_reported g s op hd (fun _ => hstep) hw1
     have h2 := ih (step g s op) (invD_step g s op hd ht.tp) (invT_step g s op ht) ho hw2
     show (run g (step g s op) ops).accepted = s.accepted ++ (reportedOf g s op ++ reported g (step g s op) ops)
     rw [h2, h1, List.append_assoc]
+
+/-- one step, whatever its outcome: `accepted` grows by the range the step's return value reports plus a rest `p`
+    that nobody reported; `p` is non-empty only for a `Sendfile` that fails after it has put a prefix of its range on
+    the wire (it returns `(0, err)` and the connection is closed) -/
+theorem step_reported_ex (g : Cfg) (s : S) (op : Op) (hd : InvD g s) (hwf : OpsWF [op]) :
+    ∃ p, (step g s op).accepted = s.accepted ++ reportedOf g s op ++ p ∧
+      (p ≠ [] → (step g s op).closed = true ∧
+        ∃ off len ks, op = .sendfile off len ks ∧ p <+: fileRange g off (sendRange g off len)) := by
+  by_cases hcall : op.isCall = true
+  · cases op with
+    | write b ks =>
+      refine ⟨[], ?_, fun h => absurd rfl h⟩
+      show (write g s b (directAns ks)).1.accepted = s.accepted ++
+        (if (write g s b (directAns ks)).2.err = .none then b.take (write g s b (directAns ks)).2.n.toNat else []) ++ []
+      by_cases he : (write g s b (directAns ks)).2.err = .none
+      · obtain ⟨h1, h2, _⟩ := c01_return_write_inv g s b _ hd he
+        rw [if_pos he, h2, h1]; simp
+      · rw [if_neg he, (c01_error_write_inv g s b _ hd he).1]; simp
+    | writev bs ks =>
+      refine ⟨[], ?_, fun h => absurd rfl h⟩
+      show (writev g s bs (directAns ks)).1.accepted = s.accepted ++
+        (if (writev g s bs (directAns ks)).2.err = .none then bs.flatten.take (writev g s bs (directAns ks)).2.n.toNat else []) ++ []
+      by_cases he : (writev g s bs (directAns ks)).2.err = .none
+      · obtain ⟨h1, h2, _⟩ := c01_return_writev_inv g s bs _ hd he
+        rw [if_pos he, h2, h1]
+        have : bs.flatten.take (total bs) = bs.flatten := by
+          rw [← flatten_length_total]; exact List.take_length
+        simp [this]
+      · rw [if_neg he, (c01_error_writev_inv g s bs _ hd he).1]; simp
+    | sendfile off len ks =>
+      have hk : KWF ks := hwf.1
+      by_cases he : (sendfile g s off len ks).2.err = .none
+      · refine ⟨[], ?_, fun h => absurd rfl h⟩
+        show (sendfile g s off len ks).1.accepted = s.accepted ++
+          (if (sendfile g s off len ks).2.err = .none then fileRange g off (sendfile g s off len ks).2.n.toNat else []) ++ []
+        obtain ⟨h1, h2, _⟩ := c01_return_sendfile_inv g s off len ks hd hk he
+        rw [if_pos he, h2, h1]; simp
+      · obtain ⟨hcl, p, hp, hacc, _⟩ := c01_error_sendfile_inv g s off len ks hd he
+        refine ⟨p, ?_, fun _ => ⟨hcl, off, len, ks, rfl, hp⟩⟩
+        show (sendfile g s off len ks).1.accepted = s.accepted ++
+          (if (sendfile g s off len ks).2.err = .none then fileRange g off (sendfile g s off len ks).2.n.toNat else []) ++ p
+        rw [if_neg he, hacc]; simp
+    | _ => simp [Op.isCall] at hcall
+  · refine ⟨[], ?_, fun h => absurd rfl h⟩
+    have := step_reported g s op hd (fun h => absurd h hcall) hwf
+    simpa using this
+
+/-- on a closed connection nothing is accepted and nothing is reported any more -/
+theorem closed_tail (g : Cfg) (ops : List Op) : ∀ t : S, InvD g t → InvT t → t.closed = true → OpsWF ops →
+    (run g t ops).accepted = t.accepted ∧ reported g t ops = [] := by
+  induction ops with
+  | nil => intro t _ _ _ _; exact ⟨rfl, rfl⟩
+  | cons op ops ih =>
+    intro t hd ht hc hwf
+    obtain ⟨hw1, hw2⟩ := opsWF_cons op ops hwf
+    have hc1 := closed_step g t op hc
+    have hacc : (step g t op).accepted = t.accepted := by
+      by_cases hop : op = .teardown
+      · subst hop; simp only [step, teardown]; split <;> rfl
+      · have hz := frozen_step g t op hc hop
+        simp only [Z, Prod.mk.injEq] at hz
+        exact hz.2.2.2.2.1
+    obtain ⟨p, hp, _⟩ := step_reported_ex g t op hd hw1
+    have hnil : reportedOf g t op ++ p = [] := by
+      rw [hacc, List.append_assoc] at hp
+      exact (List.self_eq_append_right.mp hp)
+    have hr : reportedOf g t op = [] := (List.append_eq_nil_iff.mp hnil).1
+    obtain ⟨i1, i2⟩ := ih (step g t op) (invD_step g t op hd ht.tp) (invT_step g t op ht) hc1 hw2
+    refine ⟨?_, ?_⟩
+    · show (run g (step g t op) ops).accepted = t.accepted
+      rw [i1, hacc]
+    · show reportedOf g t op ++ reported g (step g t op) ops = []
+      rw [hr, i2]; rfl
+
+theorem run_reported_ex (g : Cfg) (ops : List Op) : ∀ s : S, InvD g s → InvT s → OpsWF ops →
+    ∃ p, (run g s ops).accepted = s.accepted ++ reported g s ops ++ p ∧
+      (p ≠ [] → (run g s ops).closed = true ∧
+        ∃ off len ks, Op.sendfile off len ks ∈ ops ∧ p <+: fileRange g off (sendRange g off len)) := by
+  induction ops with
+  | nil => intro s _ _ _; exact ⟨[], by simp [run, reported], fun h => absurd rfl h⟩
+  | cons op ops ih =>
+    intro s hd ht hwf
+    obtain ⟨hw1, hw2⟩ := opsWF_cons op ops hwf
+    have hd1 := invD_step g s op hd ht.tp
+    have ht1 := invT_step g s op ht
+    obtain ⟨p, hp, hpc⟩ := step_reported_ex g s op hd hw1
+    by_cases hpn : p = []
+    · subst hpn
+      obtain ⟨q, hq, hqc⟩ := ih (step g s op) hd1 ht1 hw2
+      refine ⟨q, ?_, fun hne => ?_⟩
+      · show (run g (step g s op) ops).accepted = s.accepted ++ (reportedOf g s op ++ reported g (step g s op) ops) ++ q
+        rw [hq, hp]; simp
+      · obtain ⟨c, off, len, ks, hm, hpre⟩ := hqc hne
+        exact ⟨c, off, len, ks, List.mem_cons_of_mem _ hm, hpre⟩
+    · obtain ⟨hcl, off, len, ks, hop, hpre⟩ := hpc hpn
+      obtain ⟨i1, i2⟩ := closed_tail g ops (step g s op) hd1 ht1 hcl hw2
+      refine ⟨p, ?_, fun _ => ⟨closed_run g ops _ hcl, off, len, ks, by rw [hop]; exact List.mem_cons_self, hpre⟩⟩
+      show (run g (step g s op) ops).accepted = s.accepted ++ (reportedOf g s op ++ reported g (step g s op) ops) ++ p
+      rw [i1, i2, hp]; simp
+
+/-- **C01 (closed connections: what the peer got against what was reported).** For every op sequence with
+    well-formed sendfile(2) answers, open or closed at the end: the peer has received a prefix of
+    `reported ++ p`, where `reported` is the concatenation of the ranges the calls reported through their return values
+    and `p` is empty — unless one `Sendfile` of the sequence failed after it had transmitted a prefix `p` of its range
+    (it returned `(0, err)` and the connection is closed): exactly the prefix the harness tolerates (`tolerate`). -/
+theorem c01_wire_prefix_of_reported (g : Cfg) (ops : List Op) (hwf : OpsWF ops) :
+    let s := run g init ops
+    ∃ p, s.accepted = reported g init ops ++ p ∧ s.wire <+: reported g init ops ++ p ∧
+      (p ≠ [] → s.closed = true ∧
+        ∃ off len ks, Op.sendfile off len ks ∈ ops ∧ p <+: fileRange g off (sendRange g off len)) := by
+  intro s
+  obtain ⟨p, hp, hpc⟩ := run_reported_ex g ops init (invD_init g) invT_init hwf
+  have hp' : s.accepted = reported g init ops ++ p := by
+    show (run g init ops).accepted = reported g init ops ++ p
+    have : (run g init ops).accepted = init.accepted ++ reported g init ops ++ p := hp
+    simpa [init] using this
+  exact ⟨p, hp', by rw [← hp']; exact (c01_integrity g ops).2, hpc⟩
 
 /-- **C01 (accepted = reported).** While the connection is open, the ghost `accepted` of `c01_integrity` IS
     the concatenation, in call order, of the byte ranges the calls reported as accepted through their return
@@ -628,6 +751,15 @@ theorem c01_accepted_is_reported (g : Cfg) (ops : List Op) (hwf : OpsWF ops) :
 
 /-- a small configuration: LT, no bound, a 10-byte file 0,1,…,9 -/
 def g0 : Cfg := ⟨.lt, 0, 10, fun i => UInt8.ofNat i⟩
+
+/-- the one case with a non-empty unreported rest: Sendfile transmits 3 bytes, then the kernel answers with a fatal
+    error; the call reports nothing, the conn is closed, the 3 bytes are on the wire (`c01_wire_prefix_of_reported`
+    with `p = [0, 1, 2]`); a later call reports nothing either -/
+example :
+    let ops : List Op := [.register, .write [7] [.wrote 1], .sendfile 0 0 [.wrote 3, .fail], .teardown, .write [9] [.wrote 1]]
+    let s := run g0 init ops
+    s.closed = true ∧ reported g0 init ops = [7] ∧ s.accepted = [7, 0, 1, 2] ∧ s.wire = [7, 0, 1, 2] := by
+  decide
 
 /-- dup(2) fails: on the direct path the refused request closes the conn (3 bytes sent, 0 reported, nothing
     queued); behind a backlog the call fails and changes nothing; a range the kernel takes whole is sent -/
